@@ -100,6 +100,7 @@ pub fn main(rest: &[String]) -> i32 {
                 search::search(&game, &mut ps, &mut ts, &restr, &options, &mut rep)
             }));
             let polls = verif::polls();
+            let (nodes_at_stop, max_nodes) = verif::nodes_observed();
             verif::set_stop_at_poll(0);
             let elapsed = started.elapsed();
             let mut ev: Map<String, Value> = proj::position(&game);
@@ -111,6 +112,8 @@ pub fn main(rest: &[String]) -> i32 {
             ev.insert("lim".into(), json!(depth.unwrap_or(0)));
             ev.insert("stopk".into(), json!(stopk));
             ev.insert("polls".into(), json!(polls));
+            ev.insert("nodes_at_stop".into(), json!(nodes_at_stop));
+            ev.insert("max_nodes".into(), json!(max_nodes));
             ev.insert("ms".into(), json!(elapsed.as_millis() as u64));
             ev.insert("infos".into(), json!(rep.infos));
             ev.insert("gen".into(), json!(ps.tt.generation));
